@@ -115,16 +115,16 @@ def cells(tier, seed):
     out = []
     thorough = tier == "thorough"
     # ---------------------------------------------------------------- kernel formulas
-    for t in (2, 3):
+    for t in ((2, 3, 4) if thorough else (2, 3)):
         for rank in range(0, t + 1):
-            for n1, n2, d in ((1, 1, 1), (3, 2, 2), (2, 3, 1)):
+            for n1, n2, d in ((1, 1, 1), (3, 2, 2), (2, 3, 1)) + (((4, 4, 3),) if thorough else ()):
                 out.append({"what": "multitask-kernel", "t": t, "rank": rank, "n1": n1, "n2": n2, "d": d})
             out.append({"what": "index-kernel", "t": t, "rank": rank})
     for nk in (1, 2, 3):
         for ranks in ([0, 1, 2], [1, 1, 1], [2, 0, 1]):
             for t in (2, 3):
                 out.append({"what": "lcm-kernel", "t": t, "nk": nk, "ranks": ranks[:nk], "d": 2})
-    for sizes in ([4], [5], [3, 3], [4, 3], [3, 4], [2, 3, 4]):
+    for sizes in [[4], [5], [3, 3], [4, 3], [3, 4], [2, 3, 4]] + ([[2], [6], [2, 5], [5, 2], [2, 2, 2], [3, 2, 3]] if thorough else []):
         for toep in (True, False):
             for base in ("rbf", "matern"):
                 out.append({"what": "grid-kernel", "sizes": sizes, "d": len(sizes), "toeplitz": toep, "base": base})
@@ -149,7 +149,7 @@ def cells(tier, seed):
             continue
         out.append({"what": "rff-kernel", "n": n, "d": d, "D": D, "ard": ard})
     # ---------------------------------------------------------------- interpolation
-    for grid in ([8], [12], [5], [8, 8], [8, 12], [12, 8], [5, 7]):
+    for grid in [[8], [12], [5], [8, 8], [8, 12], [12, 8], [5, 7]] + ([[4], [16], [4, 4], [6, 5], [5, 6, 5]] if thorough else []):
         out.append({"what": "interp-weights", "d": len(grid), "grid": grid})
     for d, ard, sym in ((1, False, True), (2, False, True), (2, False, False), (2, True, True), (2, True, False)):
         for base in ("rbf", "matern"):
@@ -386,8 +386,9 @@ def run_gridkernel(cell, g, fails):
                                          "K(grid, grid) != base kernel on the full Cartesian grid in the documented point order"):
                     if util.close(got, perdim_ref(d, True, name)(P, P), *TOL)[0]:
                         fails[-1]["symptom"] += "; = per-dimension product prod_i k(x_i, x'_i) of the base kernel instead of k(x, x')"
-                fails.check_close("grid-" + mode + "-second-call", k(P, P).to_dense(), want, *TOL)
-                fails.check_close("grid-" + mode + "-diag", k(P, P).to_dense().diagonal(), want.diagonal(), *TOL)
+                else:
+                    fails.check_close("grid-" + mode + "-second-call", k(P, P).to_dense(), want, *TOL)
+                    fails.check_close("grid-" + mode + "-diag", k(P, P).to_dense().diagonal(), want.diagonal(), *TOL)
                 # not the grid: must fall back to the base kernel
                 x = util.rand(g, 3, d)
                 fails.check_close("grid-offgrid", k(x, P).to_dense(), ref(x, P), *TOL)
@@ -567,7 +568,7 @@ def run_rffkernel(cell, g, fails):
 def run_interp(cell, g, fails):
     sizes = cell["grid"]
     d = len(sizes)
-    lo, hi = [-0.3, 0.5][:d], [1.7, 2.0][:d]
+    lo, hi = [-0.3, 0.5, 1.0][:d], [1.7, 2.0, 1.8][:d]
     grid = [torch.linspace(lo[i], hi[i], s, dtype=F64) for i, s in enumerate(sizes)]
     G = math.prod(sizes)
     U = ST.grid_points(grid, "lex")
